@@ -9,14 +9,30 @@ from units import U
 ID = 'C09'
 ZERO_LABELS = True      # a share of the cases is asked with candidates numbered from 0 (harness/common.py LABEL_MODE)
 LEVEL = 'proof'
-TIE = {'approval.QuotaSelector.evaluate': 'correspondence', 'core.get_n_best': 'correspondence', 'util.sorted_votes': 'correspondence',
-       'Plurality.evaluate': 'correspondence'}
+# The bodies of util.sorted_votes, core.get_n_best and Plurality.evaluate are regenerated from the source on every run
+# (tools/py2v.py -> Gen/Core.v) and proved equal to Model/GetNBest.v for all mappings and all n_seats >= 0 in Props/GenTie_Core.v;
+# QuotaSelector.evaluate on top of the generated get_n_best (Gen/CoreQsel.v) in Props/GenTie_CoreQsel.v.  Theorems about Gen.* live
+# only in those files; Props/C09.v depends on the hand-written model alone.  A source the translator does not read (status != ok)
+# falls back to the correspondence streams on a denser grid (ctx.fallback; evidence: coverage.translator_fallback); a GenTie lemma
+# that no longer checks is a broken obligation of C09, widens the search and switches the order-exact stream on.
+GEN_TIES = {'Core': 'Props/GenTie_Core.v', 'CoreQsel': 'Props/GenTie_CoreQsel.v'}
+TIE = {'util.sorted_votes (whole body: sorted with key=itemgetter(1), reverse=descending)':
+           'translator (Gen/Core.v; GenTie_Core.v tie_sorted_votes_desc / _asc: = sort_desc / sort_asc, the stable sorts of Model/GetNBest.v) '
+           '+ correspondence',
+       'core.get_n_best (whole body: guard cascade, index operations, collecting loop, slices, [Tie(tied)] * n_tie_places)':
+           'translator (Gen/Core.v; GenTie_Core.v tie_get_n_best: = inl (Model.GetNBest.get_n_best votes n) for every mapping and every '
+           'n_seats >= 0, no IndexError / TypeError) + correspondence',
+       'Plurality.evaluate': 'translator (Gen/Core.v; GenTie_Core.v tie_plurality) + correspondence',
+       'approval.QuotaSelector.evaluate': 'translator (Gen/CoreQsel.v on top of the generated get_n_best; GenTie_CoreQsel.v: = qsel_evaluate of '
+                                          'Model/QuotaDistributor.v) + correspondence',
+       'fallback when the translator rejects the source': 'correspondence on a denser grid (exhaustive over <=5 candidates, 4x random)'}
 RULE = ('corpus first; exhaustive stream: every mapping of 1..k candidates into the pool {-1,0,1,2,1/2} '
         'x every n in 1..k+1 (k=4 quick, 5 thorough); random stream: 1..8 candidates, values int up to 1e30 / '
         'Fraction / Decimal with forced equal groups at the cut; each case run through core.get_n_best and '
         'Plurality().evaluate; quota-selector stream: QuotaSelector x 7 named quotas x accept_equal x select/error. Outputs compared after canonicalisation (runs of equal-valued winners sorted, ties as '
         'sorted sets). non-trivial = at least two candidates share a value or n >= number of candidates or a value '
-        'is non-integer/negative/beyond 2^53; distinct by hash of the canonical case')
+        'is non-integer/negative/beyond 2^53; distinct by hash of the canonical case; only while an obligation is broken and these streams found nothing: order-exact stream (the same comparison '
+        'without sorting equal-valued winners) and zero-seats stream (n = 0 on every mapping of <= 3 candidates)')
 PARTIAL = []
 TRUSTED = []
 POOL = [Fraction(-1), Fraction(0), Fraction(1), Fraction(2), Fraction(1, 2)]
@@ -91,6 +107,15 @@ def canon_sel(votes, wire):
 
 def canon(c, wire):
     return canon_sel(c['votes'], wire)
+
+
+def canon_exact(c, wire):
+    """the selection as listed: equal-valued plain winners keep their place (the model's sort is stable: input order), ties as sets.
+       Only used while a proof / tie obligation is broken, to turn e.g. a sort that lost its stability into a concrete input."""
+    v = common.parse_sx(wire)
+    if v[0] != 0:
+        return ('err', v[1] if len(v) > 1 else None)
+    return ('ok', tuple(tuple(sorted(r)) if isinstance(r, list) else r for r in v[1]))
 
 
 def nontrivial(c):
@@ -171,9 +196,20 @@ def corpus():
         yield json.load(open(p))
 
 
+def gen_zero(k):
+    """n_seats = 0 (the guards of get_n_best read the threshold at index -1 then): every mapping of <= k candidates"""
+    for m in range(0, k + 1):
+        for vals in itertools.product(POOL, repeat=m):
+            yield mk(list(zip(range(1, m + 1), vals)), 0)
+
+
 def explore(ctx, widen=1):
     ctx.differential('corpus', corpus(), model_line, impl, canon, nontrivial)
-    k = ctx.n(4, 5)
+    # units the translator rejected are tied by these streams alone: denser (DESIGN.md 2.1 fallback)
+    dense = bool({'Core', 'CoreQsel'} & ctx.fallback)
+    k = 5 if dense else ctx.n(4, 5)
+    if dense:
+        widen = max(widen, 4)
     ex = list(gen_exhaustive(k))
     ctx.differential('exhaustive', ex, model_line, impl, canon, nontrivial)
     ctx.notes.append('exhaustive stream complete for <=%d candidates over the value pool' % k)
@@ -181,10 +217,17 @@ def explore(ctx, widen=1):
                      model_line, impl, canon, nontrivial)
     ctx.differential('random', gen_random(ctx.rng, ctx.n(1500, 30000) * widen), model_line, impl, canon, nontrivial)
     ctx.differential('quota-selector', gen_qsel(ctx.rng, ctx.n(1500, 20000) * widen), qs_model_line, qs_impl, canon, nontrivial)
+    if ctx.broken_items and not ctx.violations:
+        # an obligation (theorem / generated-code tie) no longer checks and the streams above, which compare what the property text
+        # states, found nothing: look where the PROVED MODEL says more than the text - the order of equal-valued winners (the model's
+        # sort is stable) and n_seats = 0 (the tie lemma covers it; the property quantifies over n >= 1)
+        ctx.differential('order-exact', list(gen_exhaustive(3)) + list(gen_random(ctx.rng, 2000)), model_line, impl, canon_exact, nontrivial)
+        if not ctx.violations:
+            ctx.differential('zero-seats', gen_zero(3), model_line, impl, canon, None)
 
 
 def replay(ctx, case, stream=None):
     if case.get('unit') == 'quota_selector':
         ctx.differential('replay', [case], qs_model_line, qs_impl, canon, nontrivial)
     else:
-        ctx.differential('replay', [case], model_line, impl, canon, nontrivial)
+        ctx.differential('replay', [case], model_line, impl, canon_exact if stream == 'order-exact' else canon, nontrivial)
